@@ -170,11 +170,15 @@ theorem hb_applyOp_static (sk : Nat → Prop) (w : World) (op : Op) (hs : SkOK s
   case rewire d ups => exact absurd h id
   case create s => exact absurd h id
   case schedFail d t =>
-    unfold World.applyOp
-    exact hb_sched _ _ _ _ _ _ (not_bad_fail sk d (fun hd => h ((hs d).1 hd)))
+    simp only [World.applyOp]
+    split
+    · rfl
+    · exact hb_sched _ _ _ _ _ _ (not_bad_fail sk d (fun hd => h ((hs d).1 hd)))
   case schedFailRel d t =>
-    unfold World.applyOp
-    exact hb_sched _ _ _ _ _ _ (not_bad_fail sk d (fun hd => h ((hs d).1 hd)))
+    simp only [World.applyOp]
+    split
+    · rfl
+    · exact hb_sched _ _ _ _ _ _ (not_bad_fail sk d (fun hd => h ((hs d).1 hd)))
   all_goals (unfold World.applyOp; frame')
 
 theorem sr_applyOp (sk : Nat → Prop) (w : World) (op : Op) (hs : SkOK sk w) (h : OpStatic w op) :
